@@ -426,22 +426,22 @@ Proof.
   inversion H. cbn [head_poly]. apply is_poly_d. assumption.
 Qed.
 
-Lemma last_d : forall a b x y, map rs_d a = map rs_d b -> rs_d x = rs_d y ->
-  rs_d (last a x) = rs_d (last b y).
+Lemma find_d (p : rdesc -> bool) : forall a b, map rs_d a = map rs_d b ->
+  option_map rs_d (find (fun r => p (rs_d r)) a) = option_map rs_d (find (fun r => p (rs_d r)) b).
 Proof.
-  induction a as [|p a IH]; destruct b as [|q b]; cbn [map]; intros x y H Hxy; try discriminate; [exact Hxy|].
-  inversion H as [[Hp Ht]]. destruct a as [|p' a]; destruct b as [|q' b]; try discriminate.
-  - cbn [last]. exact Hp.
-  - change (last (p :: p' :: a) x) with (last (p' :: a) x).
-    change (last (q :: q' :: b) y) with (last (q' :: b) y). apply IH; assumption.
+  induction a as [|x a IH]; destruct b as [|y b]; cbn [map]; intro H; try discriminate; [reflexivity|].
+  injection H as Hx Ht. cbn [find]. rewrite Hx. destruct (p (rs_d y)); [cbn; rewrite Hx; reflexivity | apply IH; exact Ht].
 Qed.
 
 Lemma cyclic_d close a b : map rs_d a = map rs_d b -> cyclic close a = cyclic close b.
 Proof.
-  destruct a as [|x a], b as [|y b]; cbn [map]; intro H; try discriminate; [reflexivity|].
-  unfold cyclic. inversion H as [[Hx Ht]].
-  assert (E : rs_d (last (x :: a) x) = rs_d (last (y :: b) y)) by (apply last_d; [exact H | exact Hx]).
-  rewrite Hx, E. reflexivity.
+  intro H. unfold cyclic, first_N, last_C.
+  pose proof (find_d rd_hasN a b H) as E1.
+  assert (Hr : map rs_d (rev a) = map rs_d (rev b)) by (rewrite !map_rev, H; reflexivity).
+  pose proof (find_d rd_hasC (rev a) (rev b) Hr) as E2.
+  destruct (find (fun r => rd_hasN (rs_d r)) a), (find (fun r => rd_hasN (rs_d r)) b); cbn in E1; try discriminate; [|reflexivity].
+  destruct (find (fun r => rd_hasC (rs_d r)) (rev a)), (find (fun r => rd_hasC (rs_d r)) (rev b)); cbn in E2; try discriminate; [|reflexivity].
+  injection E1 as E1. injection E2 as E2. rewrite E1, E2. reflexivity.
 Qed.
 
 (* -- the C-terminus search -- *)
@@ -1412,3 +1412,13 @@ Proof.
   destruct (lookup m (ar_ff r) a); [discriminate H | reflexivity].
 Qed.
 Local Close Scope Z_scope.
+
+(* fix C02-F3: a water listed before / after a ring under the ring's chain id does not hide
+   the closure *)
+Local Open Scope string_scope.
+Definition ex_ring_water : list (string * list rdesc) :=
+  [("A", [wat_d 9; amino_d 0 false; amino_d 1 false; amino_d 2 false; wat_d 3])].
+Lemma ex_ring_water_termini : show_termini (termini ex_opts (close_of [(0, 2)]) ex_ring_water)
+  = "9:0000::A,0:0000::A,1:0000::A,2:0000::A,3:0000::A".
+Proof. vm_compute. reflexivity. Qed.
+Local Close Scope string_scope.
